@@ -228,6 +228,11 @@ fn eval_forward_transformed_prev(ri: usize, ti: usize, mi: usize, prev_variant: 
         }
         _ => {}
     }
+    // a frame over an unrelated robot is asked about the very same joints on the same thread first: nothing may carry over
+    {
+        let other = Frame { robot: Arc::new(OPWKinematics::new(make(0.07, 0.03, -0.02, [0.33, 0.41, 0.39, 0.06], [-1, 1, 1, -1, 1, -1], [0.1, -0.2, 0.3, 0.0, 0.5, -0.4], 6))), frame: to_na(&motions[(mi + 1) % 3]) };
+        let _ = other.forward_transformed(&q, &prev);
+    }
     let (sols, pose) = framed.forward_transformed(&q, &prev);
     let want = m.mul(&fkref::fk(&p, &q));
     let (dp, da) = pose_dist(&from_na(&pose), &want);
